@@ -1116,13 +1116,73 @@ UNKNOWN = _Unknown()
 
 
 class Token:
-    """an opaque run-time object with an identity the rule knows (e.g. "what json.load returned for the state file")"""
+    """an opaque run-time object with an identity the rule knows (e.g. "what json.load returned for the state file",
+    "the object a class-level sentinel was bound to once").  What is known about it beyond its identity:
+      is_object    it is an instance of a class of the analysed program (or a bare object() / a fresh mutable display):
+                   never None, never a number / string / bool, so `tok is <constant>` is false;
+      identity_eq  additionally its class leaves __eq__ to object: `tok == x` is `tok is x` (and the reflected
+                   comparison falls back to it whenever x's own __eq__ declines, as the builtin data types do);
+      plain_data   it is built from None / bool / numbers / strings / lists / dicts only (decoded JSON): its __eq__
+                   declines any program object, and it is never identical to an object the program created itself."""
 
-    def __init__(self, name):
+    def __init__(self, name, identity_eq=False, plain_data=False, is_object=False):
         self.name = name
+        self.identity_eq = identity_eq
+        self.plain_data = plain_data
+        self.is_object = is_object or identity_eq
 
     def __repr__(self):
         return "<%s>" % self.name
+
+
+# reserved key of an environment (not an identifier, so no local can collide): a callable expr -> value | UNKNOWN that
+# gives a value to what is not a local -- names of module-level sentinels, attribute chains naming class-level ones,
+# constructor calls that make a fresh object (see Sentinels).  It travels with every copy of the environment.
+RESOLVE = "<resolve>"
+
+
+def _is_plain_const(v):
+    return v is None or isinstance(v, (bool, int, float, str, bytes))
+
+
+def _identical(a, b):
+    """a is b, for values of const_eval (constants / tokens): True / False / UNKNOWN"""
+    ta, tb = isinstance(a, Token), isinstance(b, Token)
+    if ta and tb:
+        # distinct tokens stand for distinct objects: each token is one creation event (a definition evaluated once, one
+        # execution of a constructor call, the one json.load of the state file), and decoded JSON never is an object
+        # the program made
+        return a is b
+    if ta or tb:
+        tok, c = (a, b) if ta else (b, a)
+        if tok.is_object and (_is_plain_const(c) or isinstance(c, tuple)):
+            return False
+        return UNKNOWN
+    if a is None or b is None or isinstance(a, bool) or isinstance(b, bool):
+        return a is b
+    return UNKNOWN
+
+
+def _equal(a, b):
+    """a == b, for values of const_eval: True / False / UNKNOWN"""
+    ta, tb = isinstance(a, Token), isinstance(b, Token)
+    if ta and tb:
+        if a is b:
+            return True if a.identity_eq else UNKNOWN
+        # x == y with x an identity-compared object: x.__eq__ declines, y.__eq__ decides; y identity-compared or plain
+        # data (whose __eq__ declines foreign objects): both decline, the result is `x is y`, i.e. False
+        if (a.identity_eq and (b.identity_eq or b.plain_data)) or (b.identity_eq and a.plain_data):
+            return False
+        return UNKNOWN
+    if ta or tb:
+        tok, c = (a, b) if ta else (b, a)
+        if tok.identity_eq and (_is_plain_const(c) or isinstance(c, tuple)):
+            return False
+        return UNKNOWN
+    try:
+        return a == b
+    except TypeError:
+        return UNKNOWN
 
 
 def const_eval(e, env):
@@ -1132,7 +1192,13 @@ def const_eval(e, env):
     if isinstance(e, ast.Constant):
         return e.value
     if isinstance(e, ast.Name):
-        return env.get(e.id, UNKNOWN)
+        if e.id in env:
+            return env[e.id]
+        r = env.get(RESOLVE)
+        return r(e) if r is not None else UNKNOWN
+    if isinstance(e, (ast.Attribute, ast.Call)):
+        r = env.get(RESOLVE)
+        return r(e) if r is not None else UNKNOWN
     if isinstance(e, ast.UnaryOp) and isinstance(e.op, ast.Not):
         v = const_eval(e.operand, env)
         if v is UNKNOWN or isinstance(v, Token):
@@ -1166,26 +1232,47 @@ def const_eval(e, env):
         left = const_eval(e.left, env)
         res = True
         for op, r in zip(e.ops, e.comparators):
+            if isinstance(op, (ast.In, ast.NotIn)) and isinstance(r, (ast.Tuple, ast.List, ast.Set)) and not any(isinstance(x, ast.Starred) for x in r.elts):
+                # membership in a display: identical or equal to one of the elements (tokens allowed)
+                if left is UNKNOWN:
+                    return UNKNOWN
+                found = False
+                for x in r.elts:
+                    xv = const_eval(x, env)
+                    if xv is UNKNOWN:
+                        found = UNKNOWN
+                        continue
+                    same_ = _identical(left, xv)
+                    if same_ is not True:
+                        same_ = _equal(left, xv)
+                    if same_ is True:
+                        found = True
+                        break
+                    if same_ is UNKNOWN:
+                        found = UNKNOWN
+                if found is UNKNOWN:
+                    return UNKNOWN
+                v = found == isinstance(op, ast.In)
+                if not v:
+                    return False
+                left = UNKNOWN  # (a display is not chained on)
+                continue
             right = const_eval(r, env)
             if left is UNKNOWN or right is UNKNOWN:
                 return UNKNOWN
-            if isinstance(left, Token) or isinstance(right, Token):
-                # the identity of a token is known, its value is not
-                if isinstance(op, (ast.Is, ast.IsNot)) and isinstance(left, Token) and isinstance(right, Token):
-                    v = (left is right) == isinstance(op, ast.Is)
-                else:
-                    return UNKNOWN
+            if isinstance(op, (ast.Is, ast.IsNot)):
+                v = _identical(left, right)
+                if v is not UNKNOWN and isinstance(op, ast.IsNot):
+                    v = not v
+            elif isinstance(op, (ast.Eq, ast.NotEq)):
+                v = _equal(left, right)
+                if v is not UNKNOWN and isinstance(op, ast.NotEq):
+                    v = not v
+            elif isinstance(left, Token) or isinstance(right, Token):
+                return UNKNOWN  # the identity of a token is known, its value is not
             else:
                 try:
-                    if isinstance(op, ast.Is):
-                        v = left is right if (left is None or right is None or isinstance(left, bool) or isinstance(right, bool)) else UNKNOWN
-                    elif isinstance(op, ast.IsNot):
-                        v = left is not right if (left is None or right is None or isinstance(left, bool) or isinstance(right, bool)) else UNKNOWN
-                    elif isinstance(op, ast.Eq):
-                        v = left == right
-                    elif isinstance(op, ast.NotEq):
-                        v = left != right
-                    elif isinstance(op, ast.In):
+                    if isinstance(op, ast.In):
                         v = left in right
                     elif isinstance(op, ast.NotIn):
                         v = left not in right
@@ -1201,13 +1288,350 @@ def const_eval(e, env):
                         return UNKNOWN
                 except TypeError:
                     return UNKNOWN
-                if v is UNKNOWN:
-                    return UNKNOWN
+            if v is UNKNOWN:
+                return UNKNOWN
             if not v:
                 return False
             left = right
         return res
     return UNKNOWN
+
+
+# ---------------------------------------------------------------------------
+# sentinels: objects with a fixed identity that stand for "no value"
+
+
+_ENUM_BASES = {"enum.Enum": True, "enum.Flag": True, "enum.IntEnum": False, "enum.IntFlag": False, "enum.StrEnum": False}
+
+
+class Sentinels:
+    """Gives an identity (Token) to expressions that denote one particular object made by the analysed program itself,
+    whatever the spelling:
+
+      * a class-level constant `X = <fresh object>` read as `self.X`, `cls.X`, `type(self).X`, `self.__class__.X`,
+        `Class.X`, `module.Class.X`;
+      * a module-level constant read by its name, through `from m import X`, or as `module.X`;
+      * an alias of one of these bound at module level (`Y = X`);
+      * a member of an Enum class (`State.MISSING`);
+      * a constructor call evaluated in the function itself (`missing = object()`): one new Token per evaluation.
+
+    <fresh object> is `object()`, a call of a class of the program that is instantiated the ordinary way (every base
+    in the program or `object`, no __new__, no metaclass, no class decorator), or a list / dict / set display.  The
+    binding must be the only one of that name in its scope and nothing in the program may store to an attribute of
+    that name (on any receiver) or rebind the module-level name (`global`), so the expression denotes the same object
+    on every evaluation; for `self.X` no subclass may define X differently.  Anything else is UNKNOWN -- the caller
+    then simply does not know the value, which can only add paths, never remove feasible ones.
+
+    Why this is sound for pruning: a branch is pruned only when const_eval decides its test, and for tokens it decides
+    identity / equality only (a) between two tokens -- one object or two different creation events -- and (b)
+    between an `is_object` token and a constant, which an instance of a program class never is."""
+
+    def __init__(self, prog):
+        self.prog = prog
+        self.tokens = {}  # (scope qn, name) -> Token | UNKNOWN
+        self._stored = {}
+        self._fresh = 0
+
+    # -- facts about the whole program
+    def attr_stored(self, name):
+        """some statement of the program stores to / deletes an attribute of that name (any receiver), or does so through
+        setattr / delattr with a literal name"""
+        if name not in self._stored:
+            hit = False
+            for m in self.prog.modules.values():
+                for n in ast.walk(m.tree):
+                    if isinstance(n, ast.Attribute) and n.attr == name and isinstance(n.ctx, (ast.Store, ast.Del)):
+                        hit = True
+                    elif isinstance(n, ast.Call) and isinstance(n.func, ast.Name) and n.func.id in ("setattr", "delattr") and len(n.args) >= 2 \
+                            and isinstance(n.args[1], ast.Constant) and n.args[1].value == name:
+                        hit = True
+                if hit:
+                    break
+            self._stored[name] = hit
+        return self._stored[name]
+
+    @staticmethod
+    def _scope_bindings(body_owner, name):
+        """every binding of `name` in the scope of a module / class body (nested functions and classes excluded, their
+        own names included)"""
+        out = []
+        for n in walk_no_nested(body_owner, include_root=False) if not isinstance(body_owner, ast.Module) else _walk_module_scope(body_owner):
+            if isinstance(n, ast.Name) and n.id == name and isinstance(n.ctx, (ast.Store, ast.Del)):
+                out.append(n)
+            elif isinstance(n, (ast.FunctionDef, ast.AsyncFunctionDef, ast.ClassDef)) and n.name == name:
+                out.append(n)
+            elif isinstance(n, (ast.Import, ast.ImportFrom)):
+                for al in n.names:
+                    if (al.asname or al.name).split(".")[0] == name:
+                        out.append(n)
+            elif isinstance(n, ast.ExceptHandler) and n.name == name:
+                out.append(n)
+        return out
+
+    @staticmethod
+    def _direct_value(body, name):
+        """the value of the unconditional simple binding `name = v` / `name: T = v` among the statements `body`"""
+        found = []
+        for st in body:
+            if isinstance(st, ast.Assign) and len(st.targets) == 1 and isinstance(st.targets[0], ast.Name) and st.targets[0].id == name:
+                found.append(st.value)
+            elif isinstance(st, ast.AnnAssign) and isinstance(st.target, ast.Name) and st.target.id == name and st.value is not None:
+                found.append(st.value)
+        return found[0] if len(found) == 1 else None
+
+    def _plain_class(self, q):
+        """(instantiated the ordinary way, compares by identity) for class q of the program"""
+        eq = True
+        for k in self.prog.mro(q):
+            if k == "object":
+                continue
+            ci = self.prog.classes.get(k)
+            if ci is None or ci.node.keywords or ci.node.decorator_list:
+                return False, False
+            if "__new__" in ci.methods or "__new__" in ci.attrs or "__init_subclass__" in ci.methods:
+                return False, False
+            if "__eq__" in ci.methods or "__eq__" in ci.attrs:
+                eq = False
+        return True, eq
+
+    def _new_token(self, what, **kw):
+        self._fresh += 1
+        return Token("%s #%d" % (what, self._fresh), **kw)
+
+    def fresh_object(self, m, e, local_names=()):
+        """a new Token when `e`, evaluated in module m, makes a new object of its own: object(), Class(...), a display"""
+        if isinstance(e, (ast.List, ast.Dict, ast.Set, ast.ListComp, ast.DictComp, ast.SetComp)):
+            return self._new_token("fresh %s" % type(e).__name__.lower(), is_object=True)
+        if not isinstance(e, ast.Call):
+            return UNKNOWN
+        c = chain(e.func)
+        if c is None or c.split(".")[0] in local_names:
+            return UNKNOWN
+        if c == "object" and not e.args and not e.keywords and "object" not in m.imports and not self._scope_bindings(m.tree, "object"):
+            return self._new_token("object()", identity_eq=True)
+        q = self.prog.resolve_in_module(m, c)
+        if q in self.prog.classes:
+            plain, eq = self._plain_class(q)
+            if plain:
+                return self._new_token("%s(..)" % q.rsplit(".", 1)[-1], identity_eq=eq, is_object=True)
+        return UNKNOWN
+
+    # -- definitions
+    def module_name(self, m, name, depth=0):
+        """the object the module-level name `name` of module m denotes"""
+        key = (m.name, name)
+        if key in self.tokens:
+            return self.tokens[key]
+        self.tokens[key] = UNKNOWN  # (cycles)
+        v = UNKNOWN
+        if depth <= 4 and not self.attr_stored(name) and not _declared_global(m, name):
+            binds = self._scope_bindings(m.tree, name)
+            if not binds and name in m.imports:
+                v = self._qualified(m.imports[name], depth + 1)
+            elif len(binds) == 1:
+                if isinstance(binds[0], ast.ImportFrom) and name in m.imports:
+                    v = self._qualified(m.imports[name], depth + 1)
+                else:
+                    val = self._direct_value(m.tree.body, name)
+                    if val is not None:
+                        v = self._value(m, val, "%s.%s" % (m.name, name), depth + 1)
+        self.tokens[key] = v
+        return v
+
+    def _qualified(self, q, depth):
+        """the object a qualified name `pkg.mod.NAME` / `pkg.mod.Class.NAME` denotes"""
+        parts = q.split(".")
+        for i in range(len(parts) - 1, 0, -1):
+            head = ".".join(parts[:i])
+            if head in self.prog.classes and i == len(parts) - 1:
+                return self.class_attr(head, parts[-1], exact=True, depth=depth)
+            if head in self.prog.modules:
+                if i == len(parts) - 1:
+                    return self.module_name(self.prog.modules[head], parts[-1], depth)
+                return UNKNOWN
+        return UNKNOWN
+
+    def _value(self, m, val, label, depth):
+        if isinstance(val, ast.Name):
+            return self.module_name(m, val.id, depth)  # alias
+        if isinstance(val, ast.Attribute):
+            c = chain(val)
+            if c is not None:
+                return self._qualified(self.prog.resolve_in_module(m, c), depth)
+            return UNKNOWN
+        tok = self.fresh_object(m, val)
+        if isinstance(tok, Token):
+            tok.name = label
+        return tok
+
+    def class_attr(self, clsqn, name, exact, depth=0):
+        """the object `C.name` denotes (exact: the receiver is class clsqn itself; otherwise it is an instance / subclass
+        of clsqn, so every subclass in the program must inherit the same definition)"""
+        key = (clsqn, name, exact)
+        if key in self.tokens:
+            return self.tokens[key]
+        self.tokens[key] = UNKNOWN
+        self.tokens[key] = v = self._class_attr(clsqn, name, exact, depth)
+        return v
+
+    def _class_attr(self, clsqn, name, exact, depth):
+        prog = self.prog
+        if depth > 4 or self.attr_stored(name) or clsqn not in prog.classes:
+            return UNKNOWN
+        owner = None
+        for start in ([clsqn] if exact else prog.subclasses(clsqn)):
+            found = None
+            for k in prog.mro(start):
+                if k == "object":
+                    continue
+                ci = prog.classes.get(k)
+                if ci is None:
+                    return UNKNOWN  # a base outside the program may define the name (or attribute access itself)
+                if "__getattribute__" in ci.methods:
+                    return UNKNOWN
+                if self._scope_bindings(ci.node, name):
+                    found = ci
+                    break
+            if found is None or (owner is not None and found is not owner):
+                return UNKNOWN
+            owner = found
+        if owner is None:
+            return UNKNOWN
+        dkey = (owner.qn, name)
+        if dkey in self.tokens:
+            return self.tokens[dkey]
+        self.tokens[dkey] = UNKNOWN
+        v = UNKNOWN
+        binds = self._scope_bindings(owner.node, name)
+        val = self._direct_value(owner.node.body, name)
+        if len(binds) == 1 and val is not None:
+            enum_id = self._enum_class(owner.qn)
+            if enum_id is not None:
+                v = self._enum_member(owner, name, enum_id)
+            elif isinstance(val, (ast.Name, ast.Attribute)):
+                # alias evaluated in the class body: a name of the class scope first, else of the module
+                if isinstance(val, ast.Name) and self._scope_bindings(owner.node, val.id):
+                    v = self.class_attr(owner.qn, val.id, exact=True, depth=depth + 1)
+                else:
+                    v = self._value(owner.module, val, "%s.%s" % (owner.qn, name), depth + 1)
+            else:
+                v = self._value(owner.module, val, "%s.%s" % (owner.qn, name), depth + 1)
+        self.tokens[dkey] = v
+        return v
+
+    def _enum_class(self, q):
+        """None, or whether members of Enum class q compare by identity"""
+        ident = None
+        for k in self.prog.mro(q):
+            if k in _ENUM_BASES:
+                ident = _ENUM_BASES[k] if ident is None else (ident and _ENUM_BASES[k])
+        if ident is None:
+            return None
+        for k in self.prog.mro(q):
+            ci = self.prog.classes.get(k)
+            if ci is not None and ("__eq__" in ci.methods or "__new__" in ci.methods):
+                ident = False
+        return ident
+
+    def _enum_member(self, owner, name, ident):
+        """members are singletons; two names with equal values are one member, so all values must be distinct constants
+        (or auto())"""
+        if name.startswith("_"):
+            return UNKNOWN
+        seen = []
+        for st in owner.node.body:
+            if isinstance(st, ast.Assign) and len(st.targets) == 1 and isinstance(st.targets[0], ast.Name) and not st.targets[0].id.startswith("_"):
+                v = st.value
+                if isinstance(v, ast.Call) and chain(v.func) in ("auto", "enum.auto") and not v.args:
+                    continue
+                if not isinstance(v, ast.Constant) or any(type(v.value) is type(o) and v.value == o for o in seen):
+                    return UNKNOWN
+                seen.append(v.value)
+            elif isinstance(st, (ast.Assign, ast.AnnAssign, ast.AugAssign)):
+                return UNKNOWN
+        if any(isinstance(st, ast.Assign) and isinstance(st.value, ast.Call) for st in owner.node.body) and seen:
+            return UNKNOWN  # auto() mixed with explicit values may collide
+        return Token("%s.%s" % (owner.qn, name), identity_eq=ident, is_object=True)
+
+    # -- expressions inside a function
+    def resolver(self, fi):
+        """expr -> Token | UNKNOWN for expressions of function fi that are not its locals"""
+        prog = self.prog
+        m = fi.module
+        local = set(params(fi, skip_self=False))
+        for n in walk_no_nested(fi.node):
+            if isinstance(n, ast.Name) and isinstance(n.ctx, (ast.Store, ast.Del)):
+                local.add(n.id)
+            elif isinstance(n, (ast.FunctionDef, ast.AsyncFunctionDef, ast.ClassDef)) and n is not fi.node:
+                local.add(n.name)
+            elif isinstance(n, (ast.Import, ast.ImportFrom)):
+                local.update((al.asname or al.name).split(".")[0] for al in n.names)
+            elif isinstance(n, ast.ExceptHandler) and n.name:
+                local.add(n.name)
+            elif isinstance(n, ast.Global):
+                local.update(n.names)  # (a global the function itself rebinds: not a constant)
+        closure = fi.parent is not None  # free names may be the enclosing function's locals
+        prm = params(fi, skip_self=False)
+        decos = {chain(d) for d in getattr(fi.node, "decorator_list", [])}
+        recv0 = prm[0] if (fi.cls is not None and prm and "staticmethod" not in decos and writes_to_name(fi.node, prm[0]) == []) else None
+
+        def is_self_class(r):
+            """r evaluates to the class of the receiver (or the receiver of a classmethod)"""
+            if recv0 is None:
+                return False
+            if isinstance(r, ast.Name) and r.id == recv0:
+                return True
+            if isinstance(r, ast.Attribute) and r.attr == "__class__" and isinstance(r.value, ast.Name) and r.value.id == recv0:
+                return True
+            return isinstance(r, ast.Call) and isinstance(r.func, ast.Name) and r.func.id == "type" and "type" not in local and len(r.args) == 1 \
+                and not r.keywords and isinstance(r.args[0], ast.Name) and r.args[0].id == recv0
+
+        def resolve(e):
+            if isinstance(e, ast.Name):
+                if e.id in local or closure:
+                    return UNKNOWN
+                return self.module_name(m, e.id)
+            if isinstance(e, ast.Attribute):
+                if is_self_class(e.value):
+                    return self.class_attr(fi.cls.qn, e.attr, exact=False)
+                c = chain(e.value)
+                if c is None or c.split(".")[0] in local or closure:
+                    return UNKNOWN
+                q = prog.resolve_in_module(m, c)
+                if q in prog.classes:
+                    return self.class_attr(q, e.attr, exact=True)
+                if q in prog.modules:
+                    return self.module_name(prog.modules[q], e.attr)
+                return UNKNOWN
+            if isinstance(e, ast.Call):
+                if closure:
+                    return UNKNOWN
+                return self.fresh_object(m, e, local)
+            return UNKNOWN
+
+        return resolve
+
+
+def _walk_module_scope(tree):
+    """nodes of the module's own scope: not inside functions / classes (their definition nodes are yielded)"""
+    stack = list(tree.body)
+    while stack:
+        n = stack.pop()
+        yield n
+        if isinstance(n, (ast.FunctionDef, ast.AsyncFunctionDef, ast.ClassDef, ast.Lambda)):
+            continue
+        stack.extend(ast.iter_child_nodes(n))
+
+
+def _declared_global(m, name):
+    return any(isinstance(n, ast.Global) and name in n.names for n in ast.walk(m.tree))
+
+
+def sentinels(prog):
+    s = prog.__dict__.get("_c13_sentinels")
+    if s is None:
+        s = prog.__dict__["_c13_sentinels"] = Sentinels(prog)
+    return s
 
 
 def _stored_names(root):
@@ -1276,14 +1700,19 @@ class RegionPaths:
     path), so a fact that holds on every enumerated path holds on every run.
 
     exc_feasible(src_node, dst_node) may rule out exceptional edges (an exception class the source cannot raise).
-    special(value expr, env, node) -> Token | None gives selected right-hand sides an identity."""
+    special(value expr, env, node) -> Token | None gives selected right-hand sides an identity.
+    resolve(expr) -> Token | UNKNOWN gives an identity to expressions that are not locals (class- and module-level
+    sentinels, constructor calls; see Sentinels): `x = self._MISSING ... if x is self._MISSING` is decided like
+    `x = None ... if x is None`."""
 
-    def __init__(self, fi, start, env0=None, special=None, exc_feasible=None, max_paths=4000, max_visits=2):
+    def __init__(self, fi, start, env0=None, special=None, exc_feasible=None, max_paths=4000, max_visits=2, resolve=None):
         self.fi = fi
         self.pm = PathModel(fi)
         self.cfg = self.pm.cfg
         self.start = start
         self.env0 = dict(env0 or {})
+        if resolve is not None:
+            self.env0[RESOLVE] = resolve
         self.special = special
         self.exc_feasible = exc_feasible
         self.max_paths = max_paths
@@ -1432,15 +1861,18 @@ class RegionPaths:
         return ", ".join(d + ["%s raises" % x for x in ex]) or "<unconditional>"
 
 
-def entry_constants(fi, cfg, at):
-    """{local: constant} known on arrival at CFG node `at` without looking at paths: the name's only write that can
-    reach `at` is `name = <constant>` (possibly one of several writes, the others all before it) and it dominates `at`."""
-    out = {}
+def entry_constants(fi, cfg, at, resolve=None):
+    """{local: constant / token} known on arrival at CFG node `at` without looking at paths: the name's only write that
+    can reach `at` is `name = <value>` (possibly one of several writes, the others all before it) and it dominates `at`.
+    <value> is evaluated by const_eval: a constant, what `resolve` (see Sentinels.resolver) knows about it, or an
+    expression over other such locals whose defining write dominates this one (`missing = object(); content = missing`:
+    nothing can rebind `missing` between the two on a path that reaches `at`)."""
     names = {}
     for n in walk_no_nested(fi.node):
         if isinstance(n, ast.Name) and isinstance(n.ctx, (ast.Store, ast.Del)):
             names.setdefault(n.id, None)
     prm = set(params(fi, skip_self=False))
+    defs = {}
     for name in names:
         if name in prm:
             continue
@@ -1452,9 +1884,22 @@ def entry_constants(fi, cfg, at):
                 and nid not in cfg.reach({nid})]
         if len(last) != 1:
             continue
-        w = last[0][1]
+        nid, w = last[0]
         if isinstance(w, ast.Assign) and len(w.targets) == 1 and isinstance(w.targets[0], ast.Name):
-            v = const_eval(w.value, {})
+            defs[name] = (nid, w.value)
+    out = {}
+    for _round in range(4):
+        changed = False
+        for name, (nid, value) in defs.items():
+            if name in out:
+                continue
+            env = {d: out[d] for d in out if d in defs and defs[d][0] != nid and cfg.dominates(defs[d][0], nid)}
+            if resolve is not None:
+                env[RESOLVE] = resolve
+            v = const_eval(value, env)
             if v is not UNKNOWN:
                 out[name] = v
+                changed = True
+        if not changed:
+            break
     return out
